@@ -6,7 +6,7 @@ CONFIG = {
     "coq_files": ["theories/Proofs/ParserProofs.v", "theories/Proofs/LexerProofs.v"],
     "trusted": [
         "modelled (coq/theories/Lexer.v, Parser.v): the lexer over the upper-cased rune stream (maximal munch, hidden channels, the recursive Identifier rule, the four string styles, integer/float literals, '::' namespace segments, catch-all token) and a fuelled recursive-descent parser of the core grammar (three precedence tiers, left-associative ternary, FOR with all clauses, sub-queries, member paths, error operator) that succeeds only with the token list exhausted",
-        "outside the model (skipped and counted): USE heads and WAITFOR EVENT; a disagreement on a text where '?' directly follows ')' (error operator vs ternary needs unbounded look-ahead: the model commits to a bounded one)",
+        "outside the model (skipped and counted): USE heads and WAITFOR EVENT only. '?' directly after ')' (error operator or ternary) is decided by search: the reference parser tries every reading in the generated parser's order of preference (error operator first, leftmost decision most significant) and accepts when one covers the whole token list",
         "the ANTLR ALL(*) prediction machinery is not modelled: agreement of the reference parser with the generated parser is established by generation (every generated program, each of its single-token deletions/duplications and ~120 suffixes, lexical probes, the repository's .fql files)",
         "the harness' projection of compile errors to {accepted, syntax error, statically wrong, other} by the error text",
     ],
@@ -24,7 +24,8 @@ KINDS = {
     6: "token kinds of the implementation's lexer differ from the reference lexer",
     7: "ill-formed text accepted by Compile",
     8: "well-formed text rejected by Compile with a syntax/internal error",
-    9: "repository .fql file is ill-formed for the reference parser",
+    9: "text that must be accepted (repository .fql file / listed well-formed program) is ill-formed for the reference parser",
+    10: "the reference parser ran out of fuel on the text",
 }
 CLASS = {"0": "accepted", "1": "syntax error", "2": "statically wrong", "3": "other failure"}
 
@@ -61,9 +62,9 @@ def describe(meta, fname, t):
         if i >= len(ts):
             return {"key": "malformed|%s|%s" % (fname, t), "what": "malformed case reference %s" % (t,), "mkind": kind}
         text, how, o, fam = ts[i]["text"], "listed text (%s)" % ts[i]["family"], ts[i]["obs"], ts[i]["family"]
-    if kind >= 100:
+    if kind == 100:
         return {"key": "skip|%d|%s" % (kind, text), "skip": True, "mkind": kind, "text": text, "impl": CLASS.get(o, o),
-                "what": "outside the model (%s): %r [%s; Compile: %s]" % ("USE/WAITFOR" if kind == 100 else "'?' after ')'", text[:200], how, CLASS.get(o, o))}
+                "what": "outside the model (USE/WAITFOR): %r [%s; Compile: %s]" % (text[:200], how, CLASS.get(o, o))}
     tags = []
     if re.search(r"(?i)\b(FILTER|SORT)\s*\(", text):
         tags.append("paren-after-clause-keyword")
